@@ -80,6 +80,18 @@ pub fn base_workspaces() -> Vec<(String, Workspace)> {
 pub fn pathological() -> Vec<(String, Workspace)> {
     let s = |name: &str, mods: &[(&str, &str)]| (name.to_string(), Workspace::single(mods));
     vec![
+        // byte-identical modules (copied files, generated stubs): equal content must not make two
+        // files one for any query
+        s(
+            "byte-identical-modules",
+            &[
+                ("twin_a", "import lib\npub type Pt { Pt(x: Int) }\npub const unit = 1\npub fn mk(n) { let p = Pt(n) lib.show(p.x + unit) }\n"),
+                ("twin_b", "import lib\npub type Pt { Pt(x: Int) }\npub const unit = 1\npub fn mk(n) { let p = Pt(n) lib.show(p.x + unit) }\n"),
+                ("deep/twin_c", "import lib\npub type Pt { Pt(x: Int) }\npub const unit = 1\npub fn mk(n) { let p = Pt(n) lib.show(p.x + unit) }\n"),
+                ("lib", "pub fn show(n: Int) { n }\n"),
+                ("user", "import twin_a\nimport twin_b\npub fn both() { #(twin_a.mk(1), twin_b.mk(2), twin_a.Pt(3), twin_b.unit) }\n"),
+            ],
+        ),
         // the same names declared in two modules and used OUTSIDE function bodies (type fields,
         // alias bodies, constant initialisers) in several other modules, unqualified and qualified
         s(
